@@ -491,7 +491,7 @@ func (t *scannerTr) block(list []ast.Stmt, env *trEnv) []st {
 				n, je := src(as.Lhs[0]), src(as.Lhs[1])
 				w1 := fmt.Sprintf("if %s != nil {\n\treturn %s\n}", je, je)
 				w2 := fmt.Sprintf("if %s > 0 {\n\t%s.curIndex += bytes.Index(%s - 1)\n}", n, env.sname, n)
-				if src(list[i+1]) == w1 && src(list[i+2]) == w2 {
+				if src(list[i+1]) == w1 && (src(list[i+2]) == w2 || t.isSkipHelperCall(list[i+2], n, env)) {
 					out = append(out, leaf("SOracle "+k))
 					i += 2
 					continue
@@ -502,6 +502,31 @@ func (t *scannerTr) block(list []ast.Stmt, env *trEnv) []st {
 		out = append(out, t.stmt(s, env)...)
 	}
 	return out
+}
+
+// isSkipHelperCall: the statement is `s.h(n)` for a helper method h(x uint) whose whole body is
+// `if x > 0 { s.curIndex += bytes.Index(x - 1) }` - the third statement of the oracle pattern, extracted
+func (t *scannerTr) isSkipHelperCall(st ast.Stmt, n string, env *trEnv) bool {
+	es, ok := st.(*ast.ExprStmt)
+	if !ok {
+		return false
+	}
+	call, ok := es.X.(*ast.CallExpr)
+	if !ok || len(call.Args) != 1 || src(call.Args[0]) != n {
+		return false
+	}
+	sel, ok := call.Fun.(*ast.SelectorExpr)
+	if !ok || src(sel.X) != env.sname {
+		return false
+	}
+	fd := t.funcs[sel.Sel.Name]
+	if fd == nil || fd.Recv == nil || fd.Type.Results != nil || len(fd.Recv.List) != 1 || len(fd.Recv.List[0].Names) != 1 ||
+		len(fd.Type.Params.List) != 1 || len(fd.Type.Params.List[0].Names) != 1 || len(fd.Body.List) != 1 {
+		return false
+	}
+	rs, x := fd.Recv.List[0].Names[0].Name, fd.Type.Params.List[0].Names[0].Name
+	want := fmt.Sprintf("if %s > 0 {\n\t%s.curIndex += bytes.Index(%s - 1)\n}", x, rs, x)
+	return src(fd.Body.List[0]) == want
 }
 
 func (t *scannerTr) oracleCall(e ast.Expr, env *trEnv) (string, bool) {
